@@ -105,8 +105,19 @@ func mxPayOfOther(c string, payload []byte) int {
 	case "h265":
 		for _, n := range splitAVCC(payload) {
 			if len(n) >= 2 {
-				if t := (n[0] >> 1) & 0x3f; t == 19 || t == 1 {
-					return idOf(n[2:])
+				if t := (n[0] >> 1) & 0x3f; t == 19 || t == 1 || t == 0 {
+					if id := idOf(n[2:]); id >= 0 {
+						return id
+					}
+					// reordering pattern (muxer_bframes.go): the id follows the 10 / 20 original bytes
+					for _, off := range []int{10, 20} {
+						if len(n) >= off+5 {
+							if id := idOf(n[off:]); id >= 0 {
+								return id
+							}
+						}
+					}
+					return -1
 				}
 			}
 		}
